@@ -13,5 +13,6 @@ lake build $mods $drvs 2>&1 | tail -5
 cd /verif/harness
 cp -f /repo/Cargo.lock Cargo.lock 2>/dev/null || true
 cargo build --offline --bins 2>&1 | tail -3
+cargo build --offline --features hist --bins 2>&1 | tail -3
 if ls src/bin | grep -q '^c29.rs$'; then cargo build --offline --features encryption --bin c29 2>&1 | tail -1; fi
 exit 0
